@@ -256,6 +256,22 @@ impl RawClient {
     pub fn close(self) {
         let _ = self.stream.shutdown(Shutdown::Both);
     }
+
+    /// Abortive close: SO_LINGER 0 makes close() send RST instead of FIN.
+    pub fn abort(self) {
+        use std::os::unix::io::AsRawFd;
+        let lg = libc::linger { l_onoff: 1, l_linger: 0 };
+        unsafe {
+            libc::setsockopt(
+                self.stream.as_raw_fd(),
+                libc::SOL_SOCKET,
+                libc::SO_LINGER,
+                &lg as *const _ as *const libc::c_void,
+                std::mem::size_of::<libc::linger>() as libc::socklen_t,
+            );
+        }
+        drop(self.stream);
+    }
 }
 
 /// One GET round trip on a fresh connection; used as a liveness probe.
